@@ -1,144 +1,515 @@
-(* Proofs for the pairing method selection (property C36).
+(* Proofs for the link layer PDU buffer (C15, C16, C17).
 
-   The domain is finite: 36 configurations x manager state (1 bit) x request IO capability byte x
-   OOB flag byte x the two AuthReq bits that matter x local OOB data. The cell facts are decided by
-   forallb ... = true (vm_compute) and lifted with forallb_forall; the sweep runs over
-       all_cfgs x {false,true} x io 0..255 x oob {0,1} x {false,true}^3          (294 912 cells)
-   the OOB flag values 2..255 are covered by a second sweep (256 values) showing that the code's
-   test  oob & ~0x01  rejects exactly these, and the AuthReq byte needs no bound at all, because
-   model and oracle only look at bits 2 and 3 (lemma sc_bit). Traces of any length follow by
-   induction with the invariant "a LESC-only manager never learns about local OOB data". *)
-From Coq Require Import NArith List Bool Lia.
-Import ListNotations.
-From BT Require Import Base.ListX Base.Bits2 SMSelect.SMSelectModel SMSelect.SMSelectSpec.
+   Part A  header arithmetic (|, & ~, >> 8 on the 16 bit header) reduced to single bits
+   Part B  refinement: the monitor accepts every trace of the model (relation Rel between model
+           state and the monitor's abstract peripheral, preserved by every operation)
+   Part C  the abstract peripheral in closed loop with a conformant central over a faulty channel:
+           the alternating-bit invariant SI (DESIGN.md 12.2) and the end-to-end statements
+   Part D  packet counter *)
+From Coq Require Import Lia ZifyBool.
+From BT Require Import Base.ListX Base.Bits2 PduBuf.PduBufModel PduBuf.PduBufSpec.
 Local Open Scope N_scope.
 
-(* ---------- the AuthReq byte ---------- *)
-(* ( auth_req & secure_connections ) != 0  is bit 3, for every N *)
-Lemma sc_bit auth : sc_requested auth = bit_sc auth.
+(* ===================================================================== Part A: headers *)
+
+Lemma has_pow2 h k : has h (2 ^ k) = N.testbit h k.
 Proof.
-  unfold sc_requested, bit_sc, flag_secure_connections.
-  destruct auth as [|p]; [reflexivity|].
-  do 4 (try destruct p as [p|p|]); reflexivity.
+  unfold has. destruct (N.testbit h k) eqn:E.
+  - apply negb_true_iff, N.eqb_neq. intros Z.
+    assert (H : N.testbit (N.land h (2 ^ k)) k = false) by (rewrite Z; apply N.bits_0).
+    rewrite N.land_spec, E, N.pow2_bits_true in H. discriminate.
+  - apply negb_false_iff, N.eqb_eq. apply N.bits_inj_0. intros i.
+    rewrite N.land_spec, N.pow2_bits_eqb. destruct (N.eqb_spec k i); subst; rewrite ?E; auto using andb_false_r.
 Qed.
 
-(* ---------- finite enumerations ---------- *)
-Definition bools := [false; true].
-Lemma In_bools b : In b bools.
-Proof. destruct b; simpl; auto. Qed.
+Lemma has_nesn h : has h nesn_flag = N.testbit h 2. Proof. exact (has_pow2 h 2). Qed.
+Lemma has_sn h : has h sn_flag = N.testbit h 3. Proof. exact (has_pow2 h 3). Qed.
 
-Lemma all_cfgs_complete c : In c all_cfgs.
+Lemma testbit_setb h k b i :
+  N.testbit (setb h (2 ^ k) b) i = if k =? i then b else N.testbit h i.
 Proof.
-  destruct c as [[] [] [] []]; vm_compute; repeat (first [left; reflexivity | right]).
+  unfold setb. destruct b.
+  - rewrite N.lor_spec, N.pow2_bits_eqb. destruct (k =? i); auto using orb_true_r, orb_false_r.
+  - rewrite N.ldiff_spec, N.pow2_bits_eqb. destruct (k =? i); simpl; auto using andb_false_r, andb_true_r.
 Qed.
 
-Lemma all_cfgs_length : length all_cfgs = 36%nat.
-Proof. reflexivity. Qed.
+Lemma testbit_lor_pow2 h k i :
+  N.testbit (N.lor h (2 ^ k)) i = if k =? i then true else N.testbit h i.
+Proof. exact (testbit_setb h k true i). Qed.
 
-(* ---------- the OOB data flag byte ---------- *)
-Definition oob_sweep_ok : bool :=
-  forallb (fun oob => Bool.eqb (negb (N.land oob 254 =? 0)) (1 <? oob)) (Nrange 256).
-Lemma oob_sweep_ok_true : oob_sweep_ok = true.
+(* a mask k and a flag m without common bits: | m and & ~m do not change h & k *)
+Lemma land_lor_indep h m k : N.land m k = 0 -> N.land (N.lor h m) k = N.land h k.
+Proof. intros H. rewrite N.land_lor_distr_l, H. apply N.lor_0_r. Qed.
+
+Lemma land_ldiff_indep h m k : N.land m k = 0 -> N.land (N.ldiff h m) k = N.land h k.
+Proof.
+  intros H. apply N.bits_inj. intros i. rewrite !N.land_spec, N.ldiff_spec.
+  assert (B : N.testbit (N.land m k) i = false) by (rewrite H; apply N.bits_0).
+  rewrite N.land_spec in B.
+  destruct (N.testbit h i), (N.testbit m i), (N.testbit k i); simpl in *; auto; discriminate.
+Qed.
+
+Lemma land_setb_indep h m k b : N.land m k = 0 -> N.land (setb h m b) k = N.land h k.
+Proof. destruct b; simpl; [apply land_lor_indep | apply land_ldiff_indep]. Qed.
+
+Lemma hdr_len_lor h m : m < 256 -> hdr_len (N.lor h m) = hdr_len h.
+Proof.
+  intros H. unfold hdr_len. rewrite N.shiftr_lor.
+  replace (N.shiftr m 8) with 0; [apply N.lor_0_r|].
+  rewrite N.shiftr_div_pow2. symmetry. apply N.div_small. exact H.
+Qed.
+
+Lemma hdr_len_ldiff h m : m < 256 -> hdr_len (N.ldiff h m) = hdr_len h.
+Proof.
+  intros H. unfold hdr_len. rewrite N.shiftr_ldiff.
+  replace (N.shiftr m 8) with 0; [apply N.ldiff_0_r|].
+  rewrite N.shiftr_div_pow2. symmetry. apply N.div_small. exact H.
+Qed.
+
+Lemma hdr_len_setb h m b : m < 256 -> hdr_len (setb h m b) = hdr_len h.
+Proof. destruct b; simpl; [apply hdr_len_lor | apply hdr_len_ldiff]. Qed.
+
+Lemma has_indep_lor h m k : N.land m k = 0 -> has (N.lor h m) k = has h k.
+Proof. intros H. unfold has. rewrite land_lor_indep; auto. Qed.
+Lemma has_indep_setb h m k b : N.land m k = 0 -> has (setb h m b) k = has h k.
+Proof. intros H. unfold has. rewrite land_setb_indep; auto. Qed.
+
+Lemma has_setb_same h k b : has (setb h (2 ^ k) b) (2 ^ k) = b.
+Proof. rewrite has_pow2, testbit_setb, N.eqb_refl. reflexivity. Qed.
+
+Lemma has_lor_same h k : has (N.lor h (2 ^ k)) (2 ^ k) = true.
+Proof. exact (has_setb_same h k true). Qed.
+
+(* h & k only looks at the low byte when k is a byte *)
+Lemma land_low x k : N.land 255 k = k -> N.land x k = N.land (x mod 256) k.
+Proof.
+  intros H. change 256 with (2 ^ 8). rewrite <- N.land_ones. change (N.ones 8) with 255.
+  rewrite <- N.land_assoc, H. reflexivity.
+Qed.
+
+Lemma mkhdr_mod hl body : hl < 256 -> (mkhdr hl body) mod 256 = hl.
+Proof.
+  intros H. unfold mkhdr. rewrite N.mul_comm, N.mod_add by discriminate. apply N.mod_small, H.
+Qed.
+
+Lemma mkhdr_land hl body k : hl < 256 -> N.land 255 k = k -> N.land (mkhdr hl body) k = N.land hl k.
+Proof. intros H K. rewrite (land_low (mkhdr hl body) k K), mkhdr_mod; auto. Qed.
+
+Lemma mkhdr_has hl body k : hl < 256 -> N.land 255 k = k -> has (mkhdr hl body) k = has hl k.
+Proof. intros H K. unfold has. rewrite mkhdr_land; auto. Qed.
+
+Lemma mkhdr_len hl body : hl < 256 -> hdr_len (mkhdr hl body) = blen body.
+Proof.
+  intros H. unfold hdr_len, mkhdr. rewrite N.shiftr_div_pow2. change (2 ^ 8) with 256.
+  rewrite N.mul_comm, N.div_add by discriminate. rewrite N.div_small by exact H. reflexivity.
+Qed.
+
+(* ( header & 0xff00 ) != 0 is "length byte != 0" (finite sweep over low byte x length byte; the
+   statement is kept in unfolded form so that the kernel never re-evaluates the sweep lazily) *)
+Definition len_test (hl len : N) : bool := Bool.eqb (N.land (hl + 256 * len) 65280 =? 0) (len =? 0).
+Lemma len_sweep_true : forallb (fun hl => forallb (len_test hl) (Nrange 256)) (Nrange 256) = true.
 Proof. vm_compute. reflexivity. Qed.
 
-(* the code's  oob_data_flag & ~0x01  is "reserved value" on bytes *)
-Lemma oob_flag_test oob : oob < 256 -> negb (N.land oob 254 =? 0) = (1 <? oob).
+Lemma mkhdr_len_land hl body :
+  hl < 256 -> blen body < 256 -> (N.land (mkhdr hl body) 65280 =? 0) = (blen body =? 0).
 Proof.
-  intros H. pose proof oob_sweep_ok_true as S. unfold oob_sweep_ok in S.
-  rewrite forallb_forall in S. specialize (S oob (In_Nrange 256 oob H)).
-  apply eqb_prop in S. exact S.
+  intros H L. pose proof len_sweep_true as S.
+  rewrite forallb_forall in S. pose proof (S hl (In_Nrange 256 hl H)) as S1.
+  rewrite forallb_forall in S1. pose proof (S1 (blen body) (In_Nrange 256 _ L)) as S2.
+  apply eqb_prop in S2. exact S2.
 Qed.
 
-Lemma small_oob oob : (1 <? oob) = false -> oob = 0 \/ oob = 1.
-Proof. intros H. apply N.ltb_ge in H. lia. Qed.
+(* the facts used below, for the three flags and the masks 3 (LLID), 8 (SN), 224 (RFU) *)
+Lemma llid_setb_nesn h b : llid (setb h nesn_flag b) = llid h.
+Proof. unfold llid. apply land_setb_indep. reflexivity. Qed.
+Lemma llid_lor_md h : llid (N.lor h more_data_flag) = llid h.
+Proof. unfold llid. apply land_lor_indep. reflexivity. Qed.
+Lemma llid_lor_sn h : llid (N.lor h sn_flag) = llid h.
+Proof. unfold llid. apply land_lor_indep. reflexivity. Qed.
+Lemma sn_setb_nesn h b : has (setb h nesn_flag b) sn_flag = has h sn_flag.
+Proof. apply has_indep_setb. reflexivity. Qed.
+Lemma sn_lor_md h : has (N.lor h more_data_flag) sn_flag = has h sn_flag.
+Proof. apply has_indep_lor. reflexivity. Qed.
+Lemma sn_lor_sn h : has (N.lor h sn_flag) sn_flag = true.
+Proof. exact (has_lor_same h 3). Qed.
+Lemma rfu_setb_nesn h b : N.land (setb h nesn_flag b) header_rfu_mask = N.land h header_rfu_mask.
+Proof. apply land_setb_indep. reflexivity. Qed.
+Lemma rfu_lor_md h : N.land (N.lor h more_data_flag) header_rfu_mask = N.land h header_rfu_mask.
+Proof. apply land_lor_indep. reflexivity. Qed.
+Lemma rfu_lor_sn h : N.land (N.lor h sn_flag) header_rfu_mask = N.land h header_rfu_mask.
+Proof. apply land_lor_indep. reflexivity. Qed.
+Lemma len_setb_nesn h b : hdr_len (setb h nesn_flag b) = hdr_len h.
+Proof. apply hdr_len_setb. reflexivity. Qed.
+Lemma len_lor_md h : hdr_len (N.lor h more_data_flag) = hdr_len h.
+Proof. apply hdr_len_lor. reflexivity. Qed.
+Lemma len_lor_sn h : hdr_len (N.lor h sn_flag) = hdr_len h.
+Proof. apply hdr_len_lor. reflexivity. Qed.
+Lemma nesn_setb_nesn h b : has (setb h nesn_flag b) nesn_flag = b.
+Proof. exact (has_setb_same h 2 b). Qed.
 
-(* ---------- one cell ---------- *)
-Definition verdict_ok (v : verdict) : bool := match v with Ok => true | Bad _ => false end.
-Lemma verdict_ok_true v : verdict_ok v = true -> v = Ok.
-Proof. destruct v; simpl; congruence. Qed.
+Global Hint Rewrite llid_setb_nesn llid_lor_md llid_lor_sn sn_setb_nesn sn_lor_md sn_lor_sn rfu_setb_nesn
+  rfu_lor_md rfu_lor_sn len_setb_nesn len_lor_md len_lor_sn nesn_setb_nesn : hdr.
 
-(* invariant of the manager state: the LESC-only manager never asks the OOB callback *)
-Definition inv_b (c : cfg) (has : bool) : bool := negb (is_variant_lesc (c_variant c)) || negb has.
+Lemma land_sub h a b : N.land h a = 0 -> N.land a b = b -> N.land h b = 0.
+Proof. intros H K. rewrite <- K, N.land_assoc, H. reflexivity. Qed.
 
-(* which cells a statement is about: exA excludes class (A) no_mitm, exB excludes class (B) *)
-Definition in_scope_b (exA exB : bool) (c : cfg) (oob : N) (init_mitm init_sc loc : bool) : bool :=
-  (negb exA || negb (no_mitm_bits c init_mitm)) && (negb exB || negb (lesc_local_oob_bits c oob init_sc loc)).
+Lemma leqb_refl a : leqb a a = true.
+Proof. induction a; simpl; auto. rewrite N.eqb_refl. auto. Qed.
 
-Definition cell_ok (mr exA exB : bool) (c : cfg) (has : bool) (io oob : N) (init_mitm init_sc loc : bool) : bool :=
-  implb (inv_b c has)
-    (inv_b c (oob_present (fst (step_sc c (mkst has) io oob init_sc loc))) &&
-     implb (in_scope_b exA exB c oob init_mitm init_sc loc)
-           (verdict_ok (judge_bits mr c io oob init_mitm init_sc (snd (step_sc c (mkst has) io oob init_sc loc))))).
-
-Definition cells_ok (mr exA exB : bool) : bool :=
-  forallb (fun c => forallb (fun has => forallb (fun io => forallb (fun oob =>
-  forallb (fun m => forallb (fun sc => forallb (fun loc =>
-    cell_ok mr exA exB c has io oob m sc loc) bools) bools) bools) [0; 1]) (Nrange 256)) bools) all_cfgs.
-
-(* the property's oracle, outside the two classes of known deviating cells *)
-Lemma cells_partial : cells_ok true true true = true.
-Proof. vm_compute. reflexivity. Qed.
-
-(* the oracle without the "neither side sets MITM -> Just Works" rule, outside class (B) only *)
-Lemma cells_without_mitm_rule : cells_ok false false true = true.
-Proof. vm_compute. reflexivity. Qed.
-
-Lemma invalid_oob_cell mr c s io oob m sc loc :
-  oob < 256 -> (1 <? oob) = true ->
-  step_sc c s io oob sc loc = (s, OFail err_invalid_parameters) /\
-  judge_bits mr c io oob m sc (OFail err_invalid_parameters) = Ok.
+Lemma leqb_eq a b : leqb a b = true -> a = b.
 Proof.
-  intros Hb H. split.
-  - unfold step_sc, invalid_parameters. rewrite (oob_flag_test oob Hb), H, orb_true_r. reflexivity.
-  - unfold judge_bits. rewrite H. destruct (core_io_of_byte io); reflexivity.
+  revert b; induction a as [|x a IH]; intros [|y b] H; simpl in H; try discriminate; auto.
+  apply andb_true_iff in H. destruct H as [H1 H2]. apply N.eqb_eq in H1. f_equal; auto.
 Qed.
 
-Lemma cell_sound mr exA exB :
-  cells_ok mr exA exB = true ->
-  forall c has io oob m sc loc,
-    io < 256 -> oob < 256 -> inv_b c has = true ->
-    inv_b c (oob_present (fst (step_sc c (mkst has) io oob sc loc))) = true /\
-    (in_scope_b exA exB c oob m sc loc = true ->
-     judge_bits mr c io oob m sc (snd (step_sc c (mkst has) io oob sc loc)) = Ok).
+(* ===================================================================== Part B: refinement *)
+Local Opaque N.add N.mul N.sub.
+
+Definition key (e : elem) : N * list N := (llid (e_hdr e), e_body e).
+Definition raw (e : elem) : N * list N := (e_hdr e, e_body e).
+Definition lenok (e : elem) : Prop := hdr_len (e_hdr e) = blen (e_body e).
+Definition good (e : elem) : Prop := lenok e /\ N.land (e_hdr e) header_rfu_mask = 0.
+
+(* sequence numbers of the queued PDUs alternate, starting with b *)
+Fixpoint alt (b : bool) (q : list elem) : Prop :=
+  match q with
+  | [] => True
+  | e :: t => has (e_hdr e) sn_flag = b /\ alt (negb b) t
+  end.
+(* ... and the next committed PDU gets *)
+Fixpoint endsn (b : bool) (q : list elem) : bool :=
+  match q with
+  | [] => b
+  | _ :: t => endsn (negb b) t
+  end.
+
+Lemma alt_app b q e : alt b (q ++ [e]) <-> alt b q /\ has (e_hdr e) sn_flag = endsn b q.
 Proof.
-  intros S c has io oob m sc loc Hio Hoob Hinv.
-  destruct (1 <? oob) eqn:Hr.
-  - destruct (invalid_oob_cell mr c (mkst has) io oob m sc loc Hoob Hr) as [E J].
-    rewrite E. simpl. split; auto.
-  - unfold cells_ok in S.
-    rewrite forallb_forall in S. specialize (S c (all_cfgs_complete c)).
-    rewrite forallb_forall in S. specialize (S has (In_bools has)).
-    rewrite forallb_forall in S. specialize (S io (In_Nrange 256 io Hio)).
-    rewrite forallb_forall in S. specialize (S oob).
-    assert (Ho : In oob [0; 1]) by (destruct (small_oob oob Hr); subst; simpl; auto).
-    specialize (S Ho).
-    rewrite forallb_forall in S. specialize (S m (In_bools m)).
-    rewrite forallb_forall in S. specialize (S sc (In_bools sc)).
-    rewrite forallb_forall in S. specialize (S loc (In_bools loc)).
-    unfold cell_ok in S. rewrite Hinv in S. simpl in S.
-    apply andb_true_iff in S. destruct S as [S1 S2]. split; auto.
-    intros Hs. rewrite Hs in S2. simpl in S2. apply verdict_ok_true. exact S2.
+  revert b; induction q as [|x q IH]; intros b; simpl.
+  - tauto.
+  - rewrite IH. tauto.
 Qed.
 
-(* ---------- traces ---------- *)
-Definition scope_op (exA exB : bool) (c : cfg) (o : op) : bool :=
-  match o with Req _ oob auth loc => in_scope_b exA exB c oob (bit_mitm auth) (bit_sc auth) loc end.
+Lemma endsn_app b q e : endsn b (q ++ [e]) = negb (endsn b q).
+Proof. revert b; induction q as [|x q IH]; intros b; simpl; auto. Qed.
 
-Lemma monitor_from_ok mr exA exB :
-  cells_ok mr exA exB = true ->
-  forall c ops s pos,
-    inv_b c (oob_present s) = true ->
-    Forall op_bounded ops ->
-    Forall (fun o => scope_op exA exB c o = true) ops ->
-    monitor_from mr (minit c) pos (run c s ops) = None.
+Definition empty_ok (h : N) (b : bool) : Prop :=
+  llid h = ll_empty_id /\ has h sn_flag = b /\ hdr_len h = 0 /\ N.land h header_rfu_mask = 0.
+
+Definition TxRel (s : state) (m : mon) : Prop :=
+  let q := r_q (txr s) in
+  m_txq m = map key q /\ Forall good q /\
+  match m_cur m with
+  | CNone => next_empty s = false /\ alt (m_sn m) q /\ sn s = endsn (m_sn m) q
+  | CEmpty b => next_empty s = true /\ empty_sn s = b /\ empty_ok (empty_hdr s) b /\ m_sn m = negb b
+                /\ alt (negb b) q /\ sn s = endsn (negb b) q
+  | CData b => next_empty s = false /\ m_sn m = negb b /\ alt b q /\ q <> [] /\ sn s = endsn b q
+  end.
+
+Record Rel (cf : cfg) (s : state) (m : mon) : Prop := mkRel {
+  R_o : m_o m = c_o cf;
+  R_nesn : m_nesn m = nesn s;
+  R_rxq : m_rxq m = map raw (r_q (rxr s));
+  R_rxgood : Forall lenok (r_q (rxr s));
+  R_stopped : m_stopped m = stopped s;
+  R_maxrx : max_rx s <= 251;
+  R_tx : m_txdead m = false -> TxRel s m }.
+
+Lemma Rel_init cf : Rel cf (init cf) (minit cf).
 Proof.
-  intros S c ops. induction ops as [|o t IH]; intros s pos Hinv Hb Hs; [reflexivity|].
-  inversion Hb as [|? ? Hbo Hbt]; subst. inversion Hs as [|? ? Hso Hst]; subst.
-  destruct o as [io oob auth loc]. destruct Hbo as [Hio Hoob].
-  destruct s as [has]. simpl in Hinv.
-  destruct (cell_sound mr exA exB S c has io oob (bit_mitm auth) (bit_sc auth) loc Hio Hoob Hinv) as [I J].
-  simpl in Hso. specialize (J Hso).
-  cbn [run step]. rewrite sc_bit.
-  destruct (step_sc c (mkst has) io oob (bit_sc auth) loc) as [s' r] eqn:E.
-  cbn [fst snd] in I, J.
-  cbn [monitor_from mstep_gen judge_gen minit]. Show. Abort.
+  constructor; simpl; auto; try (unfold min_buffer_size; lia).
+  intros _. unfold TxRel; simpl. repeat split; auto.
+Qed.
+
+Lemma empty_new_ok (sq nb : bool) :
+  empty_ok (setb (if sq then sn_flag + ll_empty_id else ll_empty_id) nesn_flag nb) sq.
+Proof. destruct sq, nb; vm_compute; auto. Qed.
+
+Lemma data_matches_ok o e b h :
+  good e -> has (e_hdr e) sn_flag = b ->
+  llid h = llid (e_hdr e) -> has h sn_flag = has (e_hdr e) sn_flag -> hdr_len h = hdr_len (e_hdr e) ->
+  N.land h header_rfu_mask = N.land (e_hdr e) header_rfu_mask ->
+  data_matches o (key e) b (msz o h) h (e_body e) = true.
+Proof.
+  intros [G1 G2] S L1 L2 L3 L4. unfold data_matches, key, msz. simpl fst; simpl snd.
+  unfold lenok in G1.
+  rewrite L1, L2, L3, L4, S, G1, G2, leqb_refl, !N.eqb_refl, eqb_reflx. reflexivity.
+Qed.
+
+Lemma empty_matches_ok o h b : empty_ok h b -> empty_matches o b (2 + o) h [] = true.
+Proof.
+  intros (A & B & C & D). unfold empty_matches. rewrite A, B, C, D, eqb_reflx, !N.eqb_refl. reflexivity.
+Qed.
+
+Lemma empty_ok_setb h b nb : empty_ok h b -> empty_ok (setb h nesn_flag nb) b.
+Proof. intros (A & B & C & D). unfold empty_ok. autorewrite with hdr. auto. Qed.
+
+Lemma good_w_hdr e h :
+  good e -> hdr_len h = hdr_len (e_hdr e) -> N.land h header_rfu_mask = N.land (e_hdr e) header_rfu_mask ->
+  good (w_hdr e h).
+Proof. intros [G1 G2] A B. unfold good, lenok in *. simpl. rewrite A, B. auto. Qed.
+
+Lemma key_w_hdr e h : llid h = llid (e_hdr e) -> key (w_hdr e h) = key e.
+Proof. intros A. unfold key. simpl. rewrite A. reflexivity. Qed.
+
+Lemma data_hdr_facts e (md nb : bool) :
+  let h := setb (if md then N.lor (e_hdr e) more_data_flag else e_hdr e) nesn_flag nb in
+  llid h = llid (e_hdr e) /\ has h sn_flag = has (e_hdr e) sn_flag /\ hdr_len h = hdr_len (e_hdr e) /\
+  N.land h header_rfu_mask = N.land (e_hdr e) header_rfu_mask.
+Proof. destruct md; simpl; autorewrite with hdr; auto. Qed.
+
+(* what next_transmit() leaves alone, and the NESN it sends *)
+Lemma next_transmit_frame cf s s' sz h b :
+  next_transmit cf s = (s', (sz, h, b)) ->
+  has h nesn_flag = nesn s /\ nesn s' = nesn s /\ rxr s' = rxr s /\ stopped s' = stopped s /\ max_rx s' = max_rx s.
+Proof.
+  unfold next_transmit, with_nesn. intros H.
+  destruct (next_empty s).
+  - destruct (r_q (txr s)) as [|e t]; inversion H; subst; clear H; simpl; autorewrite with hdr; auto.
+  - destruct (r_q (txr s)) as [|e t]; inversion H; subst; clear H; simpl; autorewrite with hdr; auto.
+Qed.
+
+Lemma next_transmit_tx cf s m s' sz h b tag :
+  m_o m = c_o cf -> m_nesn m = nesn s -> m_txdead m = false -> TxRel s m ->
+  next_transmit cf s = (s', (sz, h, b)) ->
+  exists m', check_resp tag m sz h b = (Ok, m') /\ TxRel s' m' /\
+             m_o m' = m_o m /\ m_nesn m' = m_nesn m /\ m_rxq m' = m_rxq m /\ m_stopped m' = m_stopped m
+             /\ m_txdead m' = false.
+Proof.
+  intros Ho Hn Hd T H.
+  pose proof (next_transmit_frame _ _ _ _ _ _ H) as (Fn & _).
+  unfold check_resp. rewrite Fn, Hn, eqb_reflx, Hd. simpl negb. cbv iota.
+  unfold TxRel in T. destruct T as (Tq & Tg & Tc).
+  unfold next_transmit, with_nesn in H.
+  destruct (m_cur m) as [|be|bd] eqn:Ec.
+  - (* nothing in flight *)
+    destruct Tc as (Ne & Ta & Ts). rewrite Ne in H.
+    destruct (r_q (txr s)) as [|e t] eqn:Eq.
+    + (* a new empty PDU *)
+      inversion H; subst; clear H. rewrite Tq. simpl map. cbv iota.
+      rewrite Ho. simpl in Ts. rewrite Ts.
+      rewrite (empty_matches_ok _ _ _ (empty_new_ok (m_sn m) (nesn s))).
+      eexists; split; [reflexivity|]. unfold TxRel. simpl. rewrite Eq. simpl.
+      repeat split; auto; apply empty_new_ok.
+    + (* a new data PDU *)
+      inversion H; subst; clear H. rewrite Tq. simpl map. cbv iota.
+      inversion Tg as [|? ? Ge Gt]; subst. destruct Ta as [Ta1 Ta2].
+      match goal with |- context [if ?c then N.lor (e_hdr e) more_data_flag else e_hdr e] => set (md := c) end.
+      destruct (data_hdr_facts e md (nesn s)) as (A1 & A2 & A3 & A4).
+      set (h1 := if md then N.lor (e_hdr e) more_data_flag else e_hdr e) in *.
+      rewrite Ho, (data_matches_ok (c_o cf) e (m_sn m) _ Ge Ta1 A1 A2 A3 A4).
+      eexists; split; [reflexivity|]. unfold TxRel. simpl.
+      rewrite key_w_hdr by exact A1. rewrite Ne.
+      repeat split; auto.
+      * constructor; auto. apply good_w_hdr; auto.
+      * rewrite A2. auto.
+      * discriminate.
+  - (* an empty PDU in flight *)
+    destruct Tc as (Ne & Tes & Teo & Tsn & Ta & Ts). rewrite Ne in H.
+    destruct (r_q (txr s)) as [|e t] eqn:Eq.
+    + inversion H; subst; clear H.
+      rewrite Ho, (empty_matches_ok _ _ _ (empty_ok_setb _ _ (nesn s) Teo)).
+      eexists; split; [reflexivity|]. unfold TxRel. rewrite Ec. simpl. rewrite Eq.
+      repeat split; auto; apply (empty_ok_setb _ _ _ Teo).
+    + inversion H; subst; clear H. simpl.
+      rewrite Ho, (empty_matches_ok _ _ _ (empty_ok_setb _ _ (nesn s) Teo)).
+      eexists; split; [reflexivity|]. unfold TxRel. rewrite Ec. simpl.
+      inversion Tg as [|? ? Ge Gt]; subst. destruct Ta as [Ta1 Ta2].
+      rewrite key_w_hdr by (simpl; autorewrite with hdr; auto).
+      repeat split; auto; try apply (empty_ok_setb _ _ _ Teo).
+      * constructor; auto. apply good_w_hdr; auto; autorewrite with hdr; auto.
+      * autorewrite with hdr. auto.
+  - (* a data PDU in flight *)
+    destruct Tc as (Ne & Tsn & Ta & Tne & Ts). rewrite Ne in H.
+    destruct (r_q (txr s)) as [|e t] eqn:Eq; [congruence|].
+    inversion H; subst; clear H. rewrite Tq. simpl map. cbv iota.
+    inversion Tg as [|? ? Ge Gt]; subst. destruct Ta as [Ta1 Ta2].
+    match goal with |- context [if ?c then N.lor (e_hdr e) more_data_flag else e_hdr e] => set (md := c) end.
+    destruct (data_hdr_facts e md (nesn s)) as (A1 & A2 & A3 & A4).
+    set (h1 := if md then N.lor (e_hdr e) more_data_flag else e_hdr e) in *.
+    rewrite Ho, (data_matches_ok (c_o cf) e bd _ Ge Ta1 A1 A2 A3 A4).
+    eexists; split; [reflexivity|]. unfold TxRel. rewrite Ec. simpl.
+    rewrite key_w_hdr by exact A1. rewrite Ne.
+    repeat split; auto.
+    * constructor; auto. apply good_w_hdr; auto.
+    * rewrite A2. auto.
+    * discriminate.
+Qed.
+
+Lemma check_resp_txdead tag m sz h b v m' :
+  check_resp tag m sz h b = (v, m') -> m_txdead m' = m_txdead m.
+Proof.
+  unfold check_resp. intros H.
+  destruct (negb _); [inversion H; auto|].
+  destruct (m_txdead m) eqn:D; [inversion H; subst; auto|].
+  destruct (m_cur m).
+  - destruct (m_txq m).
+    + destruct (empty_matches _ _ _ _ _); inversion H; subst; simpl; auto.
+    + destruct (data_matches _ _ _ _ _ _); inversion H; subst; simpl; auto.
+  - destruct (empty_matches _ _ _ _ _); inversion H; subst; simpl; auto.
+  - destruct (m_txq m).
+    + inversion H; subst; simpl; auto.
+    + destruct (data_matches _ _ _ _ _ _); inversion H; subst; simpl; auto.
+Qed.
+
+Lemma next_transmit_rel cf s m s' sz h b tag :
+  Rel cf s m -> next_transmit cf s = (s', (sz, h, b)) ->
+  exists m', check_resp tag m sz h b = (Ok, m') /\ Rel cf s' m'.
+Proof.
+  intros R H. destruct R as [Ro Rn Rq Rg Rs Rm Rt].
+  pose proof (next_transmit_frame _ _ _ _ _ _ H) as (Fn & F1 & F2 & F3 & F4).
+  destruct (m_txdead m) eqn:D.
+  - exists m. split.
+    + unfold check_resp. rewrite Fn, Rn, eqb_reflx, D. reflexivity.
+    + constructor; try congruence.
+  - destruct (next_transmit_tx cf s m s' sz h b tag Ro Rn D (Rt eq_refl) H)
+      as (m' & C & T & Mo & Mn & Mq & Ms & Md).
+    exists m'. split; auto. constructor; try congruence.
+Qed.
+
+Lemma ack_bit_frame s b s' tc :
+  ack_bit s b = (s', tc) ->
+  nesn s' = nesn s /\ rxr s' = rxr s /\ stopped s' = stopped s /\ max_rx s' = max_rx s.
+Proof.
+  unfold ack_bit. intros H. destruct (next_empty s).
+  - destruct (Bool.eqb _ _); inversion H; subst; simpl; auto.
+  - destruct (r_q (txr s)); [inversion H; subst; auto|].
+    destruct (Bool.eqb _ _); inversion H; subst; simpl; auto.
+Qed.
+
+Lemma m_ack_frame m b m' etc :
+  m_ack m b = (m', etc) ->
+  m_o m' = m_o m /\ m_nesn m' = m_nesn m /\ m_rxq m' = m_rxq m /\ m_stopped m' = m_stopped m.
+Proof.
+  unfold m_ack. intros H. destruct (m_txdead m); [inversion H; subst; auto|].
+  destruct (m_cur m); destruct (Bool.eqb _ _); inversion H; subst; simpl; auto.
+Qed.
+
+Lemma ack_bit_tx s m b s' tc m' etc :
+  m_txdead m = false -> TxRel s m -> ack_bit s b = (s', tc) -> m_ack m b = (m', etc) ->
+  m_txdead m' = false -> TxRel s' m' /\ tc = etc.
+Proof.
+  intros D (Tq & Tg & Tc) H M D'. unfold m_ack in M. rewrite D in M. unfold ack_bit in H.
+  destruct (m_cur m) as [|be|bd] eqn:Ec.
+  - destruct Tc as (Ne & Ta & Ts). rewrite Ne in H.
+    destruct (Bool.eqb (m_sn m) b) eqn:E; inversion M; subst; clear M; [|simpl in D'; discriminate].
+    destruct (r_q (txr s)) as [|e t] eqn:Eq.
+    + inversion H; subst. split; auto. unfold TxRel. rewrite Ec, Eq. simpl. repeat split; auto.
+    + destruct Ta as [Ta1 Ta2]. rewrite Ta1, E in H. inversion H; subst. split; auto.
+      unfold TxRel. rewrite Ec, Eq. simpl. repeat split; auto.
+  - destruct Tc as (Ne & Tes & Teo & Tsn & Ta & Ts). rewrite Ne, Tes in H.
+    destruct (Bool.eqb be b) eqn:E; inversion M; subst; clear M; inversion H; subst; clear H.
+    + split; auto. unfold TxRel. rewrite Ec. repeat split; auto; apply Teo.
+    + split; auto. unfold TxRel. simpl. rewrite Tsn. repeat split; auto.
+  - destruct Tc as (Ne & Tsn & Ta & Tne & Ts). rewrite Ne in H.
+    destruct (r_q (txr s)) as [|e t] eqn:Eq; [congruence|].
+    destruct Ta as [Ta1 Ta2]. rewrite Ta1 in H.
+    destruct (Bool.eqb bd b) eqn:E; inversion M; subst; clear M; inversion H; subst; clear H.
+    + split; auto. unfold TxRel. rewrite Ec, Eq. simpl. repeat split; auto; discriminate.
+    + split; auto. unfold TxRel. simpl. rewrite Tq, Tsn. simpl.
+      inversion Tg; subst. rewrite Eq. simpl. repeat split; auto.
+Qed.
+
+Lemma ack_bit_rel cf s m b s' tc m' etc :
+  Rel cf s m -> ack_bit s b = (s', tc) -> m_ack m b = (m', etc) ->
+  Rel cf s' m' /\ (m_txdead m' = false -> tc = etc).
+Proof.
+  intros [Ro Rn Rq Rg Rs Rm Rt] H M.
+  pose proof (ack_bit_frame _ _ _ _ H) as (F1 & F2 & F3 & F4).
+  pose proof (m_ack_frame _ _ _ _ M) as (G1 & G2 & G3 & G4).
+  destruct (m_txdead m) eqn:D.
+  - assert (m' = m) by (unfold m_ack in M; rewrite D in M; inversion M; auto). subst m'.
+    split; [|congruence]. constructor; try congruence.
+  - split.
+    + constructor; try congruence. intros D'. apply (ack_bit_tx s m b s' tc m' etc D (Rt eq_refl) H M D').
+    + intros D'. apply (ack_bit_tx s m b s' tc m' etc D (Rt eq_refl) H M D').
+Qed.
+
+(* changing only the receive side of the model / the monitor keeps the transmit relation *)
+Lemma TxRel_frame s m s' m' :
+  TxRel s m -> txr s' = txr s -> next_empty s' = next_empty s -> empty_sn s' = empty_sn s ->
+  empty_hdr s' = empty_hdr s -> sn s' = sn s ->
+  m_txq m' = m_txq m -> m_cur m' = m_cur m -> m_sn m' = m_sn m -> TxRel s' m'.
+Proof.
+  unfold TxRel. intros T A B C D E F G H. rewrite A, B, C, D, E, F, G, H. exact T.
+Qed.
+
+Lemma blen_app (a : list N) x : blen (a ++ [x]) = blen a + 1.
+Proof. unfold blen. rewrite app_length. simpl. lia. Qed.
+
+Lemma step_rel cf s m o s' r :
+  Rel cf s m -> step cf s o = (s', r) -> exists m', mstep m o r = (Ok, m') /\ Rel cf s' m'.
+Proof.
+  intros R H. pose proof R as [Ro Rn Rq Rg Rs Rm Rt].
+  destruct o as [n|n| | |n hl body| | | |hl body|hl body| ]; unfold step in H.
+  - (* MaxRx *)
+    destruct (size_ok (c_R cf) (c_o cf) n) eqn:E; inversion H; subst; clear H; exists m; split; auto.
+    constructor; simpl; auto; try congruence.
+    unfold size_ok in E. rewrite !andb_true_iff in E. destruct E as [[_ E] _].
+    apply N.leb_le in E. exact E.
+  - (* MaxTx *)
+    destruct (size_ok (c_T cf) (c_o cf) n) eqn:E; inversion H; subst; clear H; exists m; split; auto.
+    constructor; simpl; auto; try congruence.
+  - (* Reset *)
+    inversion H; subst; clear H. eexists; split; [reflexivity|].
+    constructor; simpl; auto; try (unfold min_buffer_size; lia).
+    intros _. unfold TxRel; simpl. auto.
+  - (* Stop *)
+    inversion H; subst; clear H. eexists; split; [reflexivity|].
+    constructor; simpl; auto; try congruence.
+  - (* Tx *)
+    destruct ((256 <=? hl) || has hl header_rfu_mask || (blen body =? 0) || (n <? blen body + 2 + c_o cf)
+              || (max_tx s + c_o cf <? n)) eqn:Pre.
+    { inversion H; subst; clear H. exists m; split; auto. }
+    rewrite !orb_false_iff in Pre. destruct Pre as [[[[P1 P2] P3] P4] P5].
+    apply N.leb_gt in P1.
+    destruct (alloc_front (c_T cf) (txr s) n) as [off|]; [|inversion H; subst; exists m; split; auto].
+    destruct (stopped s) eqn:St.
+    { inversion H; subst; clear H. exists m. split; auto. simpl. rewrite Rs. reflexivity. }
+    inversion H; subst; clear H. simpl. rewrite Rs.
+    eexists; split; [reflexivity|].
+    set (h' := if sn s then N.lor (mkhdr hl body) sn_flag else mkhdr hl body).
+    assert (R2 : N.land hl header_rfu_mask = 0).
+    { unfold has in P2. apply negb_false_iff, N.eqb_eq in P2. exact P2. }
+    assert (K1 : llid h' = llid hl).
+    { unfold h'. destruct (sn s); autorewrite with hdr; unfold llid; apply mkhdr_land; auto. }
+    assert (K2 : hdr_len h' = blen body).
+    { unfold h'. destruct (sn s); autorewrite with hdr; apply mkhdr_len; auto. }
+    assert (K3 : N.land h' header_rfu_mask = 0).
+    { unfold h'. destruct (sn s); autorewrite with hdr; rewrite mkhdr_land; auto. }
+    destruct (N.land hl 28 =? 0) eqn:E28.
+    2:{ constructor; simpl; auto; try congruence. }
+    apply N.eqb_eq in E28.
+    assert (K4 : has h' sn_flag = sn s).
+    { unfold h'. destruct (sn s); autorewrite with hdr; auto.
+      rewrite mkhdr_has by auto. unfold has. rewrite (land_sub hl 28 sn_flag E28 eq_refl). reflexivity. }
+    constructor; simpl; auto; try congruence.
+    intros D. specialize (Rt D). destruct Rt as (Tq & Tg & Tc).
+    unfold TxRel. simpl. rewrite map_app, Tq. simpl.
+    split; [unfold key; simpl; rewrite K1; reflexivity|]. split.
+    { apply Forall_app. split; auto. constructor; auto. split; auto. }
+    destruct (m_cur m).
+    + destruct Tc as (Ne & Ta & Ts). rewrite endsn_app, <- Ts. repeat split; auto.
+      apply alt_app. split; auto. simpl. rewrite K4. exact Ts.
+    + destruct Tc as (Ne & Tes & Teo & Tsn & Ta & Ts). rewrite endsn_app, <- Ts. repeat split; auto; try apply Teo.
+      apply alt_app. split; auto. simpl. rewrite K4. exact Ts.
+    + destruct Tc as (Ne & Tsn & Ta & Tne & Ts). rewrite endsn_app, <- Ts. repeat split; auto.
+      * apply alt_app. split; auto. simpl. rewrite K4. exact Ts.
+      * destruct (r_q (txr s)); simpl; discriminate.
+  - (* Pend *)
+    inversion H; subst; clear H. simpl.
+    destruct (m_txdead m) eqn:D; simpl; [exists m; split; auto|].
+    destruct (Rt eq_refl) as (Tq & _). rewrite Tq.
+    destruct (r_q (txr s')); simpl; exists m; split; auto.
+  - (* NextRecv *)
+    destruct (r_q (rxr s)) as [|e t] eqn:Eq; inversion H; subst; clear H; simpl; rewrite Rq; simpl.
+    + exists m; split; auto.
+    + rewrite N.eqb_refl, leqb_refl. simpl.
+      inversion Rg as [|? ? Ge Gt]; subst. unfold lenok in Ge. unfold msz. rewrite Ge, Ro, N.eqb_refl.
+      exists m; split; auto.
+  - (* FreeRecv *)
+    destruct (r_q (rxr s)) as [|e t] eqn:Eq; inversion H; subst; clear H; simpl; rewrite Rq; simpl.
+    + exists m; split; auto.
+    + eexists; split; [reflexivity|].
+      inversion Rg; subst. constructor; simpl; auto; try congruence. rewrite Eq. auto.
+Show.
